@@ -282,6 +282,7 @@ class ModelSlot:
         self.origin_text = None   # its text (restored objects)
         self.canon = False        # restored from a member-order-normalised form of the document
         self.pristine_cache = {}
+        self.live_cache = {}
         self.lineage = None
         self.n_predicts = 0
         self.prev_span = "none"
@@ -489,6 +490,7 @@ class Worker:
         if out.get("class") != "harness-error":
             try:
                 self._collateral(ev, out)
+                self._documents_untouched(ev, out, store)
             except Exception as e:  # noqa: BLE001
                 out["collateral_error"] = f"{type(e).__name__}: {e}"
         self.clock.advance({"FIT": 1.0, "PREDICT": 0.05, "PREDICT_PAIR": 0.1}.get(kind, 0.01))
@@ -542,6 +544,32 @@ class Worker:
             ds.last_state = st
         if coll:
             out["collateral"] = coll
+
+    def _documents_untouched(self, ev, out, store):
+        """Documents the caller holds as dicts (the store keeps the very dict object it hands to from_dict) must stay as
+        they were stored, whatever is done later with the objects restored from them."""
+        bad = []
+        for doc_id, entry in store.items():
+            d = entry.get("obj")
+            if d is None:
+                continue
+            try:
+                now = json.dumps(d, sort_keys=True, default=str)
+            except Exception as e:  # noqa: BLE001
+                now = _cls(e)
+            was = entry.get("_obj_text")
+            if was is None:
+                entry["_obj_text"] = now
+            elif was != now:
+                if not (ev["kind"] == "LOAD" and out.get("document_changed")):
+                    try:
+                        paths = D.top_diff(json.loads(was), json.loads(now))
+                    except Exception:  # noqa: BLE001
+                        paths = ["unserialisable"]
+                    bad.append({"doc": doc_id, "fam": entry.get("fam"), "profile": entry.get("profile"), "paths": paths})
+                entry["_obj_text"] = now
+        if bad:
+            out["documents_altered"] = bad
 
     # ------------------------------------------------------------------ schedule / fault events
 
@@ -851,6 +879,12 @@ class Worker:
                     out["fresh_doc_same"] = pp["doc"] == dg
                     if not out["fresh_doc_same"]:
                         try:
+                            # as documents: an object restored earlier writes -100.0 where a fresh one writes -100
+                            out["fresh_doc_same"] = D.value_equal(json.loads(pp["text"]), json.loads(txt))
+                        except Exception:  # noqa: BLE001
+                            pass
+                    if not out["fresh_doc_same"]:
+                        try:
                             out["fresh_doc_paths"] = D.top_diff(json.loads(pp["text"]), json.loads(txt))
                         except Exception:  # noqa: BLE001
                             out["fresh_doc_paths"] = []
@@ -1062,6 +1096,21 @@ class Worker:
                     out["pristine_class"] = pcls
                     if pcls == "returned" and parts is not None:
                         out["pristine_diff"] = sorted({k for k in D.diff_parts(parts, pparts)})
+            if slot.gen >= 1 and slot.lineage and parts is not None:
+                # the original object, if it is still alive and was not fitted again: what it answers NOW
+                orig = next((o for o in self.models.values() if o is not slot and o.gen == 0 and o.fitted
+                             and o.lineage == slot.lineage and not o.limbo), None)
+                if orig is not None and (slot.fam != "caltrack" or key not in slot.live_cache):
+                    try:
+                        with self._quiet():
+                            ores = self._do_predict(copy.deepcopy(orig.obj), slot.fam, self._fresh_data(ds.recipe), ignore, agg)
+                        odiff = sorted(D.diff_parts(parts, D.frame_parts(ores)))
+                        slot.live_cache[key] = True
+                        self.probe("restored_compared_with_live_original")
+                        if odiff:
+                            out["live_original_diff"] = odiff
+                    except Exception as e:  # noqa: BLE001
+                        out["live_original_class"] = _cls(e)
             if slot.origin_doc is not None and slot.origin_doc in self.store_twins:
                 scls, sparts = self.store_twins[slot.origin_doc].predict(ds.recipe, ignore, agg)
                 if scls != "reference-unavailable":
